@@ -1183,6 +1183,13 @@ def verify_function(qname, fnode, globs, contract, contracts, make_args, timeout
                 goal = contract.post(ctx, res, *args)
             except PathEnd:
                 goal = True
+            except PyRaise as e:
+                # a postcondition that executes code itself (twin execution of the same body) met a Python exception there
+                goal = False
+                res = 'twin execution raised %s (%s) at line %s' % (e.exc, e.msg, getattr(e.node, 'lineno', '?'))
+            except Unsupported as u:
+                V.unsupported = 'in the postcondition: %s' % u
+                return V
             r, m, secs = _check(path.pc, goal, timeout_ms)
             clause('post', r, secs, model_inputs(m), 'returned %r' % (res,))
             for exc in contract.raises_iff:
